@@ -14,6 +14,7 @@ import (
 	"sort"
 	"strconv"
 	"strings"
+	"time"
 
 	sbase "github.com/alibaba/sentinel-golang/core/base"
 	stat "github.com/alibaba/sentinel-golang/core/stat/base"
@@ -827,7 +828,7 @@ func main() {
 	a := cli.Parse()
 	root := rng.New(a.Seed)
 	rep := emit.NewReport("C09", a.Seed, a.Tier)
-	rep.Rule = "random: n in 1..4 buckets x bl in {1,10,100,500,1000} ms, creation at a bucket boundary -1/0/+1/mid, optional filled array and a jump of up to 2 intervals, 2-3 goroutines x 1-2 record/read operations, up to 3 ticks (1, bl-1, bl, bl+1, interval, ...) placed by the random scheduler; scripted: the D7 interleaving for every parking position inside the reset; thorough: all interleavings of the listed small configurations. Non-trivial = at least two goroutines had operations in progress at the same time and a bucket was rolled over (a TryLock succeeded) during the schedule; distinct by executed schedule."
+	rep.Rule = "random: n in 1..4 buckets x bl in {1,10,100,500,1000} ms, creation at a bucket boundary -1/0/+1/mid, optional filled array and a jump of up to 2 intervals, 2-3 goroutines x 1-2 record/read operations, up to 3 ticks (1, bl-1, bl, bl+1, interval, ...) placed by the random scheduler; scripted: the D7 interleaving for every parking position inside the reset; thorough: all interleavings of the listed small configurations. Non-trivial = at least two goroutines had operations in progress at the same time and a bucket was rolled over (a TryLock succeeded) during the schedule; distinct by executed schedule. parallel (search only): 4-16 real goroutines recording 500-2000 amounts each with timestamps on both sides of a bucket boundary (n >= 2 buckets; array created at the older bucket, or more than an interval earlier so that the racing recorders roll both slots over); per-bucket counters and the two window reads compared with the per-goroutine ledgers."
 	nCorr := a.Pick(a.N, 260, 2500)
 	nMon := a.Pick(a.Mon, 3000, 40000)
 	if a.Search {
@@ -908,6 +909,13 @@ func main() {
 		process(c, tr, corr)
 	}
 	if a.Only >= 0 {
+		if a.Only >= parBase && a.Only < corpusBase {
+			parLeg(root, rep, 0, a.Only, 30*time.Second)
+			for _, f := range rep.MonitorFailures {
+				fmt.Printf("MONITOR-FAIL clause=%s signature=%s %s\n", f.Clause, f.Signature, f.Detail)
+			}
+			return
+		}
 		if a.Only >= enumBase {
 			fmt.Println("enumerated cases are replayed by their configuration; run --tier thorough")
 			return
@@ -933,6 +941,8 @@ func main() {
 	for id := 0; id < nMon; id++ {
 		runID(id, id < nCorr)
 	}
+	// real-thread search leg around a bucket boundary (par.go): bounded by counts, at most 4 s (quick) / 60 s (thorough)
+	parLeg(root, rep, a.Pick(0, 6, 120), -1, time.Duration(a.Pick(0, 4, 60))*time.Second)
 	if a.Tier == "thorough" && !a.Search {
 		total := 0
 		complete := true
